@@ -50,7 +50,7 @@ type handler1 struct {
 	// pendingTopicIDs holds the TopicIDs which the gateway has chosen for
 	// topic names it is registering at the client (REGISTER sent, REGACK
 	// not received yet). string => uint16
-	pendingTopicIDs sync.Map
+	pendingTopicIDs  sync.Map
 	predefinedTopics topics.PredefinedTopics
 	keepAlive        uint16
 	clientID         string
@@ -60,6 +60,13 @@ type handler1 struct {
 	transactions     *transactions.TransactionStore
 	// for testing
 	mockupDialFunc func() net.Conn
+
+	// brokerTransactions holds the exchanges started by the MQTT broker
+	// (broker PUBLISH incl. its REGISTER step). The broker and the client
+	// choose their message IDs independently, hence these exchanges must
+	// not share the message ID space with the exchanges started by the
+	// client (transactions).
+	brokerTransactions *transactions.TransactionStore
 
 	// topicIDMutex guards topicIDsExhausted and makes newTopicID atomic
 	// (it is called from both receive loops).
@@ -131,6 +138,8 @@ func newHandler(cfg *handlerConfig, predefinedTopics topics.PredefinedTopics,
 		predefinedTopics: predefinedTopics,
 		topicID:          util.NewIDSequence(snPkts.MinTopicAlias, snPkts.MaxTopicAlias),
 		transactions:     transactions.NewTransactionStore(),
+
+		brokerTransactions: transactions.NewTransactionStore(),
 	}
 
 	return h
@@ -355,7 +364,7 @@ func (h *handler1) handleBrokerPublish(ctx context.Context, mqPublish *mqPkts.Pu
 		// an "almost surely available" MsgID :(
 		found := false
 		for i := snPkts.MaxPacketID; i >= snPkts.MinPacketID; i-- {
-			if _, ok := h.transactions.Get(i); !ok {
+			if _, ok := h.brokerTransactions.Get(i); !ok {
 				msgID = i
 				found = true
 				break
@@ -414,7 +423,7 @@ func (h *handler1) handleBrokerPublish(ctx context.Context, mqPublish *mqPkts.Pu
 		}
 	}
 
-	h.transactions.Store(msgID, transaction)
+	h.brokerTransactions.Store(msgID, transaction)
 	return transaction.ProceedSN(nextState, snPkt)
 }
 
@@ -490,7 +499,7 @@ func (h *handler1) handleMqtt(ctx context.Context, pkt mqPkts.ControlPacket) err
 
 	// MQTT broker PUBLISH QoS 2 transaction.
 	case *mqPkts.PubrelPacket:
-		transactionx, _ := h.transactions.Get(mqPkt.MessageID)
+		transactionx, _ := h.brokerTransactions.Get(mqPkt.MessageID)
 		transaction, ok := transactionx.(*brokerPublishQOS2Transaction)
 		if !ok {
 			h.log.Error("Unexpected transaction type %T for packet: %v", transactionx, mqPkt)
@@ -976,7 +985,7 @@ func (h *handler1) handleMqttSn(ctx context.Context, pkt snPkts.Packet) error {
 	// packet with an unregistered topic => the gateway initializes
 	// registration and the client must acknowledge it.
 	case *snPkts1.Regack:
-		transactionx, _ := h.transactions.Get(snPkt.MessageID())
+		transactionx, _ := h.brokerTransactions.Get(snPkt.MessageID())
 		if transaction, ok := transactionx.(transactionWithRegack); ok {
 			return transaction.Regack(snPkt)
 		}
@@ -985,7 +994,7 @@ func (h *handler1) handleMqttSn(ctx context.Context, pkt snPkts.Packet) error {
 
 	// MQTT broker PUBLISH QoS 1 transaction.
 	case *snPkts1.Puback:
-		transactionx, _ := h.transactions.Get(snPkt.MessageID())
+		transactionx, _ := h.brokerTransactions.Get(snPkt.MessageID())
 		if transaction, ok := transactionx.(*brokerPublishQOS1Transaction); ok {
 			return transaction.Puback(snPkt)
 		}
@@ -994,7 +1003,7 @@ func (h *handler1) handleMqttSn(ctx context.Context, pkt snPkts.Packet) error {
 
 	// MQTT broker PUBLISH QoS 2 transaction.
 	case *snPkts1.Pubrec:
-		transactionx, _ := h.transactions.Get(snPkt.MessageID())
+		transactionx, _ := h.brokerTransactions.Get(snPkt.MessageID())
 		if transaction, ok := transactionx.(*brokerPublishQOS2Transaction); ok {
 			return transaction.Pubrec(snPkt)
 		}
@@ -1003,7 +1012,7 @@ func (h *handler1) handleMqttSn(ctx context.Context, pkt snPkts.Packet) error {
 
 	// MQTT broker PUBLISH QoS 2 transaction.
 	case *snPkts1.Pubcomp:
-		transactionx, _ := h.transactions.Get(snPkt.MessageID())
+		transactionx, _ := h.brokerTransactions.Get(snPkt.MessageID())
 		if transaction, ok := transactionx.(*brokerPublishQOS2Transaction); ok {
 			return transaction.Pubcomp(snPkt)
 		}
